@@ -672,3 +672,12 @@ func VerifSrcSetURLs(srcset string) []string {
 func VerifDocumentElement(root *html.Node) *html.Node {
 	return extractor.NewContentExtractor(root, nil, nil).VerifDocumentElement()
 }
+
+// VerifTextTerms: what the page-number finder makes of one plain text (see pagination.VerifTextTerms).
+func VerifTextTerms(text, firstURL string) (bool, []VerifPageGroup) {
+	added, g := pagination.VerifTextTerms(text, firstURL)
+	return added, verifGroups(g)
+}
+
+// VerifLinkTextToNumber is the page-number finder's linkTextToNumber.
+func VerifLinkTextToNumber(text string) (int, bool) { return pagination.VerifLinkTextToNumber(text) }
